@@ -2386,7 +2386,16 @@ pub fn c13(ix: &Index, prop: &'static str, sched: bool) -> Vec<Viol> {
                             let got = ix.by_name.get(e.name.as_str()).map(|rs| rs.iter().filter(|(_, r)| r.trace_id.0 == e.trace).map(|(bi, _)| *bi).collect::<Vec<_>>()).unwrap_or_default();
                             let is_unit_root = sp.is_root;
                             if got.is_empty() {
-                                let sig = if is_unit_root { "final-call-lost:root" } else { "final-call-lost" };
+                                // the final call's span set travels through the polling thread's
+                                // queue, the trace's start (and commit) possibly through others:
+                                // the known inconsistent-cut family (sched engine only)
+                                let cut = sched && inconsistent_cut_possible(h, e.unit, Some((fp.vt, fp.t)));
+                                let sig = match (is_unit_root, cut) {
+                                    (true, false) => "final-call-lost:root",
+                                    (false, false) => "final-call-lost",
+                                    (true, true) => "final-call-lost:root:inconsistent-cut",
+                                    (false, true) => "final-call-lost:inconsistent-cut",
+                                };
                                 if !h.cancelable || is_unit_root || h.spans[e.unit].finish_t.map_or(false, |rf| rf.0 > fp.t.1) {
                                     out.push(v(
                                         prop,
